@@ -5,6 +5,7 @@ INVARIANT AttemptBound
 INVARIANT FramingNotRetried
 INVARIANT NoReuse
 INVARIANT OwnResponse
+INVARIANT LeaseBound
 INVARIANT TimeBound
 POSTCONDITION TracePost
 CHECK_DEADLOCK FALSE
